@@ -73,6 +73,16 @@ Theorem c31_script_sound : forall max ops evs,
 Proof. exact script_sound. Qed.
 Print Assumptions c31_script_sound.
 
+(* The capacity of the semaphore the API servers hand to the runner equals the configured
+   max_concurrent whenever that is > 0, for every setting of the request rate limiter (rate > 0 or not,
+   any burst); max_concurrent = 0 means no semaphore.  Together with c31_bounded (max := that capacity):
+   no more than the CONFIGURED number of queries execute at once. *)
+Theorem c31_config_wiring : forall rate_positive burst n,
+  (0 < n -> effective_max (mkCfg rate_positive burst n) = Some n) /\
+  (n = 0 -> effective_max (mkCfg rate_positive burst n) = None).
+Proof. exact config_wiring. Qed.
+Print Assumptions c31_config_wiring.
+
 (* ---- non-vacuity ------------------------------------------------------------------------ *)
 
 (* max = 1, four queries: 0 holds, 1 is cancelled by its caller while it waits and is then rejected
@@ -127,6 +137,11 @@ Example c31_script_cancel_wait_example :
   = Some [EStart 0 true; EAcquire 0; EStart 1 true; ECancelWait 1; ETimeout 1; EStart 2 true; ETimeout 2;
           EExit 0 OOk].
 Proof. vm_compute. reflexivity. Qed.
+
+Example c31_config_wiring_example :
+  effective_max (mkCfg false 0 1) = Some 1 /\ effective_max (mkCfg true 7 2) = Some 2 /\
+  effective_max (mkCfg true 7 0) = None.
+Proof. vm_compute. auto. Qed.
 
 Example c31_script_sound_example :
   script_events 1 [OpSpawn 0 (KRun true XPanic) true; OpSpawn 1 (KRun false XErr) false;
